@@ -10,4 +10,8 @@ RULE = ('cases: the C06 sites with operands ranging over ALL values: extremes, 0
 
 
 def plan(tier, seed):
-    return C06.make_plan('C07', True, tier, RULE)
+    from .common import with_fuzz
+    p = C06.make_plan('C07', True, tier, RULE)
+    # second driver (DESIGN C07): coverage-guided search over the short-circuit branches of the predicates, clang (portable path)
+    regs = [r for u in p['units'] if u.cfg == 'clang' for r in u.regs][::5][:40]
+    return with_fuzz(p, 'C07', 'props/C06.h', regs, tier, 150000, 6000000, max_len=130, chunk=10)
